@@ -263,6 +263,27 @@ def rule_w2(ctx) -> RuleResult:
             # falls to write_attributes: legitimate only as a spelling of 'attributes'
             res.notes.append(f"{where}: route {route!r} is not a dispatcher route (falls through to write_attributes)")
         res.inst(f"{fn.qualname}:{call.lineno} route={route!r}", ok=ok)
+    # the array branch must evaluate the public getter before it reads the backing field: setters such as Curve.parts
+    # null the backing field and rely on the getter to recompute it at write time
+    wa = t.writer.methods["write_array_attribute"]
+    attr_p = wa.params[3]
+    priv = [c for c in ast.walk(wa.node) if isinstance(c, ast.Call) and unparse(c.func) == "getattr" and len(c.args) >= 2 and isinstance(c.args[1], ast.JoinedStr)
+            and unparse(c.args[1]).startswith("f'_{")]
+    direct = [a for a in ast.walk(wa.node) if isinstance(a, ast.Attribute) and a.attr == "__dict__"]
+    ok = bool(priv) and not direct
+    for c in priv:
+        guard = None
+        for i in ast.walk(wa.node):
+            if isinstance(i, ast.If) and any(x is c for s_ in i.body for x in ast.walk(s_)):
+                guard = i
+        pub = guard is not None and any(isinstance(x, ast.Call) and unparse(x.func) == "getattr" and len(x.args) >= 2 and unparse(x.args[1]) in (attr_p, f"f'{{{attr_p}}}'")
+                                        for x in ast.walk(guard.test))
+        ok = ok and pub
+    res.inst("write_array_attribute evaluates the public getter before reading the private backing field", nontrivial=True, ok=ok)
+    if not ok:
+        res.find("H5Writer", "write_array_attribute", "backing field read without evaluating the public getter first", wa.where,
+                 "setters that reset the backing field and rely on the lazy getter to recompute it (Curve.parts -> cells) now delete the "
+                 "dataset and write nothing: the file loses the array while memory has it")
     # W2b: a setter that stores its own backing field and persists through the write_attributes fallback
     # needs a map entry for that attribute, otherwise the persistence call writes everything but this value
     for K in families(ctx):
